@@ -52,6 +52,11 @@ def run_panel(job):
         if cfg["what"] == "trace":
             true = np.asarray(np.trace(dense)).reshape(1)
         stats["panel_structured_configs"] = 1
+        try:
+            estimate(0)
+        except (AssertionError, NotImplementedError):  # the rule refuses this offset for this structure: nothing to judge
+            stats["panel_configs_refused_by_cola"] = 1
+            return {"status": "ok", "stats": stats, "fired": {}, "violation": None}
         if cfg.get("exact"):
             for key in range(8):
                 est = estimate(key)
